@@ -173,6 +173,10 @@ pub trait Check: Sync {
 	fn case_timeout_ms(&self, _tier: Tier) -> u64 {
 		60_000
 	}
+	/// per-case override (a few long-running cases in a check of otherwise short ones)
+	fn case_timeout_ms_for(&self, tier: Tier, _idx: u64) -> u64 {
+		self.case_timeout_ms(tier)
+	}
 	fn rule(&self) -> String;
 	fn assumptions(&self) -> Vec<String> {
 		vec![]
@@ -389,9 +393,8 @@ pub fn worker_main(check: &dyn Check, tier: Tier, shard: u64, nshards: u64, skip
 	let total = check.num_cases(tier);
 	let mut ctx = Ctx::default();
 	let progress = check.track_progress();
-	let limit = check.case_timeout_ms(tier);
 	// an interleaving exploration stops by itself (reporting the bound it completed) well before the case watchdog would fire
-	crate::sched::set_budget_ms(limit * 6 / 10);
+	// (set per case below)
 	let mut idx = shard;
 	// resume from the checkpoint of a previous incarnation of this shard (it hung or died in a later case)
 	let ckpt = format!("{}.ckpt", resfile);
@@ -415,6 +418,8 @@ pub fn worker_main(check: &dyn Check, tier: Tier, shard: u64, nshards: u64, skip
 				let _ = std::fs::write(format!("{}.cur", resfile), idx.to_string());
 			}
 			ctx.cur_case = idx;
+			let limit = check.case_timeout_ms_for(tier, idx);
+			crate::sched::set_budget_ms(limit * 6 / 10);
 			watch_case_begin(idx, limit);
 			check.run_case(tier, idx, &mut ctx);
 			watch_case_end();
@@ -785,7 +790,7 @@ pub fn replay_main(check: &dyn Check, file: &str) -> i32 {
 		let mut ctx = Ctx::default();
 		ctx.verbose = round == 0;
 		ctx.cur_case = case;
-		watch_case_begin(case, check.case_timeout_ms(tier));
+		watch_case_begin(case, check.case_timeout_ms_for(tier, case));
 		check.run_case(tier, case, &mut ctx);
 		watch_case_end();
 		let mut sigs: Vec<(String, u64)> = ctx.fail_counts.iter().map(|(k, v)| (k.clone(), *v)).collect();
